@@ -212,12 +212,16 @@ func oracle(c core.Case, out []string) []core.Finding {
 			}
 		case "grow":
 			o.storeH, _ = strconv.ParseInt(m["h"], 10, 64)
-		case "add":
+		case "add", "rpcbroadcast":
 			e := o.defs[m["e"]]
 			if e == nil {
 				break
 			}
 			if m := e.m["vb"]; m != "1" {
+				// malformed evidence must not get in through any entry point
+				if has(pend, e.key) && !has(prePend, e.key) {
+					add("pool."+f[0]+".admits-malformed."+e.kind, fmt.Sprintf("evidence that fails ValidateBasic was admitted (%s): %s", e.m["tag"], e.key))
+				}
 				break
 			}
 			admitted := has(pend, e.key) && !has(prePend, e.key)
@@ -414,6 +418,9 @@ func oracle(c core.Case, out []string) []core.Finding {
 			if has(comm, k) {
 				add("pool.pending-and-committed", "evidence is both pending and committed after "+f[0]+": "+k)
 			}
+		}
+		if strings.Contains(out[i], " bad=") && !strings.Contains(out[i], " bad=0") {
+			add("pool.pending-fails-ValidateBasic.after-"+f[0], fmt.Sprintf("a pending record does not decode / fails ValidateBasic after %q: a restart fails on it and no peer accepts it (%s)", op, out[i]))
 		}
 		if size != int64(len(pend)) {
 			add("pool.Size.ne-pending-count.after-"+f[0], fmt.Sprintf("Size()=%d but %d items are pending after %q", size, len(pend), op))
